@@ -504,7 +504,12 @@ def run(chk):
                 elem = " ".join(t.get("gargs", []))
                 bad = [a for a in absorbing if (a.j["root_item"]["impl"].get("self_adt") or "?").rsplit("::", 1)[-1] in elem]
                 chk.touched(b)
-                chk.ob("P3 work sites", "P3|%s|%s" % (api_name(b), names.last_ident(elem.split(",")[0]) if elem else "?"), not bad, where(b, bb),
+                # the key names the construct by what does not change under a rename of private types: a visitor declared
+                # inside a function is "that function's visitor", an element wrapper that absorbs errors is "absorbing-element"
+                sadt = (b.j.get("root_item") or {}).get("impl", {}).get("self_adt") or ""
+                encl = sadt.rsplit("::", 1)[0] if sadt else ""
+                site_name = "%s::%s" % (encl.rsplit("::", 1)[-1], b.root.rsplit("::", 1)[-1]) if encl in p.bodies else api_name(b)
+                chk.ob("P3 work sites", "P3|%s|%s" % (site_name, "absorbing-element" if bad else (names.last_ident(elem.split(",")[0]) if elem else "?")), not bad, where(b, bb),
                        ("element type %s deserialises through %s, which maps every error (end of input included) to a value: the loop runs once per *declared* element "
                         "(31-byte getInfo with a truncated list header declaring 2^32 entries)" % (elem, api_name(bad[0]))) if bad else "element errors are propagated by `?`: the loop ends at the first failing element")
     chk.require("P3 work sites", "P3|loops", n_loops >= 2, "workspace", "expected >= 2 sequence element loops in scope, found %d" % n_loops)
